@@ -70,6 +70,12 @@ type monitor struct {
 	// cacheEpoch counts cache losses: identical acknowledgements are required
 	// only within one cache lifetime.
 	cacheEpoch int
+	// trackCache (single-instance scenarios): cached holds the dedup keys that the
+	// instance's deduplication cache is known to contain in the current cache
+	// lifetime (acknowledged entries, and the base entries where the scenario
+	// pre-populates the cache). Such an entry must never be admitted as new.
+	trackCache bool
+	cached     map[string]int64
 	base       *baseTree
 	// lockOnly: judge the lock-store history only (C08: tampered object storage
 	// may get damaged further, e.g. by a smuggled checkpoint in a staging bundle).
@@ -384,12 +390,21 @@ func (m *monitor) recordAck(e *PendingLogEntry, idx, ts int64, src string, snap 
 		}
 	}
 	m.acks = append(m.acks, a)
+	if m.trackCache {
+		if m.cached == nil {
+			m.cached = map[string]int64{}
+		}
+		m.cached[a.key] = idx
+	}
 	m.checkAckLocked(a, snap, "at the instant of the acknowledgement")
 }
 
 // admitted records one addLeafToPool call and the source it reported.
 func (m *monitor) admitted(spec string, e *PendingLogEntry, src string) {
 	m.mu.Lock()
+	if idx, ok := m.cached[entryKey(e)]; ok && m.trackCache && src == "sequencer" {
+		m.w.violate("C07", "entry %s is in the deduplication cache (acknowledged at index %d in this cache lifetime) but its resubmission was admitted as a new leaf", spec, idx)
+	}
 	m.admissions = append(m.admissions, admission{spec, entryKey(e), e, src})
 	m.mu.Unlock()
 }
